@@ -148,6 +148,8 @@ package wtxmgr
 //@   ensures fault_not_masked_as_duplicate: wfault && !old(wfault) ==> err != ErrDuplicateTx
 //@   ensures ns_frame: forall id Int :: {select(DBhas, id)} {select(DBval, id)} {select(DBlive, id)} id != bid(ns) && !under(id, bid(ns)) ==>
 //@       select(DBhas, id) == select(old(DBhas), id) && select(DBval, id) == select(old(DBval), id) && select(DBlive, id) == select(old(DBlive), id)
+//@   ensures bytes_frame: forall o Int :: {select(@M(uint8), o)} oldalloc(o) ==> select(@M(uint8), o) == select(old(@M(uint8)), o)
 //@   loopinv no_new_fault: wfault ==> old(wfault)
+//@   loopinv bytes_frame_inv: forall o Int :: {select(@M(uint8), o)} oldalloc(o) ==> select(@M(uint8), o) == select(old(@M(uint8)), o)
 //@   loopinv ns_frame_inv: forall id Int :: {select(DBhas, id)} {select(DBval, id)} {select(DBlive, id)} id != bid(ns) && !under(id, bid(ns)) ==>
 //@       select(DBhas, id) == select(old(DBhas), id) && select(DBval, id) == select(old(DBval), id) && select(DBlive, id) == select(old(DBlive), id)
